@@ -236,12 +236,19 @@ def census(tree, decorators=True):
 def flags(new, ref):
     """{key: reason} for every key whose census exceeds the reference's"""
     out = {}
+
+    def total(census, kind):
+        return sum(c.get(kind, 0) for k_, c in census.items() if isinstance(c.get(kind, 0), int))
     for key, c in new.items():
         r = ref.get(key, {})
         for kind, n in c.items():
             if kind == "decorators":
                 if key in ref and n != r.get("decorators", []):
                     out.setdefault(key, f"the decorators of {key} changed: {r.get('decorators', [])} -> {n}")
+                continue
+            # a function the reference did not have (code that was moved out of another one) brings the constructs of that code with
+            # it: what counts is that the module as a whole uses no more of them than it did
+            if key not in ref and kind.startswith("bind:") and total(new, kind) <= total(ref, kind):
                 continue
             if n > r.get(kind, 0):
                 out.setdefault(key, f"{kind} ({n} > {r.get(kind, 0)} in the reference)")
